@@ -131,3 +131,123 @@ Proof.
   rewrite (parse_cellpointers_enc starts rest (len b) Hs). cbn [bind].
   rewrite (parse_cells_at (fun c => parse_table_leaf c u) b starts cells Hcells). reflexivity.
 Qed.
+
+(* ---- the other page kinds ---- *)
+Lemma slice_prefix hdr tail i j x : slice hdr i j = Ok x -> slice (hdr ++ tail) i j = Ok x.
+Proof.
+  unfold slice. rewrite len_app. pose proof (len_nonneg tail) as Ht.
+  destruct ((0 <=? i) && (i <=? j) && (j <=? len hdr)) eqn:E; [|discriminate].
+  assert ((0 <=? i) && (i <=? j) && (j <=? len hdr + len tail) = true) as -> by lia.
+  intros H. rewrite <- H. f_equal. rewrite skipn_app, firstn_app, skipn_length.
+  assert (Hz : (Z.to_nat (j - i) - (length hdr - Z.to_nat i) = 0)%nat) by (unfold len in *; lia).
+  rewrite Hz. cbn [firstn]. rewrite app_nil_r. reflexivity.
+Qed.
+
+Lemma index_prefix hdr tail i x : index hdr i = Ok x -> index (hdr ++ tail) i = Ok x.
+Proof.
+  unfold index. rewrite len_app. pose proof (len_nonneg tail) as Ht.
+  destruct ((0 <=? i) && (i <? len hdr)) eqn:E; [|discriminate].
+  assert ((0 <=? i) && (i <? len hdr + len tail) = true) as -> by lia.
+  intros H. rewrite <- H. f_equal. f_equal. apply app_nth1. unfold len in *. lia.
+Qed.
+
+(* index leaf page: type 10, 8-byte header *)
+Theorem index_leaf_page hdr starts rest cells u :
+  len hdr = 8 -> index hdr 0 = Ok 10 -> slice hdr 3 5 = Ok (be_enc 2 (Z.of_nat (length starts))) ->
+  Z.of_nat (length starts) < 65536 ->
+  let b := hdr ++ enc_ptrs starts ++ rest in
+  Forall (fun s => 0 <= s < 65536 /\ s <= len b) starts ->
+  Forall2 (fun s c => 0 <= s <= len b /\ parse_index_leaf (drop s b) u = Ok c) starts cells ->
+  parse_page b false u = Ok (ILeaf cells).
+Proof.
+  intros Hl Ht Hc Hn b Hs Hcells. unfold parse_page. cbn [bind].
+  subst b. rewrite (slice_prefix _ _ _ _ _ Hc). cbn [bind]. rewrite (index_prefix _ _ _ _ Ht). cbn [bind].
+  change (10 =? 13) with false. change (10 =? 5) with false. change (10 =? 10) with true. cbv iota.
+  rewrite <- Hl at 1. rewrite slice_from_app. cbn [bind].
+  rewrite be_be_enc by (change (256 ^ Z.of_nat 2) with 65536; lia).
+  rewrite (parse_cellpointers_enc starts rest _ Hs). cbn [bind].
+  rewrite (parse_cells_at (fun c => parse_index_leaf c u) _ starts cells Hcells). reflexivity.
+Qed.
+
+(* table interior page: type 5, 12-byte header with the right-most child at bytes 8..11 *)
+Theorem table_interior_page hdr starts rest cells rm :
+  len hdr = 12 -> index hdr 0 = Ok 5 -> slice hdr 3 5 = Ok (be_enc 2 (Z.of_nat (length starts))) ->
+  slice hdr 8 12 = Ok (be_enc 4 rm) -> 0 <= rm < 2 ^ 32 ->
+  Z.of_nat (length starts) < 65536 ->
+  let b := hdr ++ enc_ptrs starts ++ rest in
+  Forall (fun s => 0 <= s < 65536 /\ s <= len b) starts ->
+  Forall2 (fun s c => 0 <= s <= len b /\ parse_table_interior (drop s b) = Ok c) starts cells ->
+  forall u, parse_page b false u = Ok (TInterior cells rm).
+Proof.
+  intros Hl Ht Hc Hr Hrm Hn b Hs Hcells u. unfold parse_page. cbn [bind].
+  subst b. rewrite (slice_prefix _ _ _ _ _ Hc). cbn [bind]. rewrite (index_prefix _ _ _ _ Ht). cbn [bind].
+  change (5 =? 13) with false. change (5 =? 5) with true. cbv iota.
+  rewrite (slice_prefix _ _ _ _ _ Hr). cbn [bind].
+  rewrite <- Hl at 1. rewrite slice_from_app. cbn [bind].
+  rewrite be_be_enc by (change (256 ^ Z.of_nat 2) with 65536; lia).
+  rewrite (parse_cellpointers_enc starts rest _ Hs). cbn [bind].
+  rewrite (parse_cells_at parse_table_interior _ starts cells Hcells). cbn [bind].
+  rewrite be_be_enc by (change (256 ^ Z.of_nat 4) with (2 ^ 32); lia). reflexivity.
+Qed.
+
+(* index interior page: type 2, 12-byte header *)
+Theorem index_interior_page hdr starts rest cells rm u :
+  len hdr = 12 -> index hdr 0 = Ok 2 -> slice hdr 3 5 = Ok (be_enc 2 (Z.of_nat (length starts))) ->
+  slice hdr 8 12 = Ok (be_enc 4 rm) -> 0 <= rm < 2 ^ 32 ->
+  Z.of_nat (length starts) < 65536 ->
+  let b := hdr ++ enc_ptrs starts ++ rest in
+  Forall (fun s => 0 <= s < 65536 /\ s <= len b) starts ->
+  Forall2 (fun s c => 0 <= s <= len b /\ parse_index_interior (drop s b) u = Ok c) starts cells ->
+  parse_page b false u = Ok (IInterior cells rm).
+Proof.
+  intros Hl Ht Hc Hr Hrm Hn b Hs Hcells. unfold parse_page. cbn [bind].
+  subst b. rewrite (slice_prefix _ _ _ _ _ Hc). cbn [bind]. rewrite (index_prefix _ _ _ _ Ht). cbn [bind].
+  change (2 =? 13) with false. change (2 =? 5) with false. change (2 =? 10) with false. change (2 =? 2) with true. cbv iota.
+  rewrite (slice_prefix _ _ _ _ _ Hr). cbn [bind].
+  rewrite <- Hl at 1. rewrite slice_from_app. cbn [bind].
+  rewrite be_be_enc by (change (256 ^ Z.of_nat 2) with 65536; lia).
+  rewrite (parse_cellpointers_enc starts rest _ Hs). cbn [bind].
+  rewrite (parse_cells_at (fun c => parse_index_interior c u) _ starts cells Hcells). cbn [bind].
+  rewrite be_be_enc by (change (256 ^ Z.of_nat 4) with (2 ^ 32); lia). reflexivity.
+Qed.
+
+(* page 1 (sqlite_master's root): the 100-byte file header comes first, the b-tree page header follows it,
+   and the cell offsets count from the start of the page, file header included *)
+Theorem first_page_table_leaf fh hdr starts rest cells u :
+  len fh = 100 -> len hdr = 8 -> index hdr 0 = Ok 13 -> slice hdr 3 5 = Ok (be_enc 2 (Z.of_nat (length starts))) ->
+  Z.of_nat (length starts) < 65536 ->
+  let b := fh ++ hdr ++ enc_ptrs starts ++ rest in
+  Forall (fun s => 0 <= s < 65536 /\ s <= len b) starts ->
+  Forall2 (fun s c => 0 <= s <= len b /\ parse_table_leaf (drop s b) u = Ok c) starts cells ->
+  parse_page b true u = Ok (TLeaf cells).
+Proof.
+  intros Hf Hl Ht Hc Hn b Hs Hcells. unfold parse_page. unfold header_size.
+  subst b. rewrite <- Hf at 1. rewrite slice_from_app. cbn [bind].
+  rewrite (slice_prefix _ _ _ _ _ Hc). cbn [bind]. rewrite (index_prefix _ _ _ _ Ht). cbn [bind].
+  change (13 =? 13) with true. cbv iota.
+  rewrite <- Hl at 1. rewrite slice_from_app. cbn [bind].
+  rewrite be_be_enc by (change (256 ^ Z.of_nat 2) with 65536; lia).
+  rewrite (parse_cellpointers_enc starts rest _ Hs). cbn [bind].
+  rewrite (parse_cells_at (fun c => parse_table_leaf c u) _ starts cells Hcells). reflexivity.
+Qed.
+
+Theorem first_page_table_interior fh hdr starts rest cells rm :
+  len fh = 100 -> len hdr = 12 -> index hdr 0 = Ok 5 -> slice hdr 3 5 = Ok (be_enc 2 (Z.of_nat (length starts))) ->
+  slice hdr 8 12 = Ok (be_enc 4 rm) -> 0 <= rm < 2 ^ 32 ->
+  Z.of_nat (length starts) < 65536 ->
+  let b := fh ++ hdr ++ enc_ptrs starts ++ rest in
+  Forall (fun s => 0 <= s < 65536 /\ s <= len b) starts ->
+  Forall2 (fun s c => 0 <= s <= len b /\ parse_table_interior (drop s b) = Ok c) starts cells ->
+  forall u, parse_page b true u = Ok (TInterior cells rm).
+Proof.
+  intros Hf Hl Ht Hc Hr Hrm Hn b Hs Hcells u. unfold parse_page. unfold header_size.
+  subst b. rewrite <- Hf at 1. rewrite slice_from_app. cbn [bind].
+  rewrite (slice_prefix _ _ _ _ _ Hc). cbn [bind]. rewrite (index_prefix _ _ _ _ Ht). cbn [bind].
+  change (5 =? 13) with false. change (5 =? 5) with true. cbv iota.
+  rewrite (slice_prefix _ _ _ _ _ Hr). cbn [bind].
+  rewrite <- Hl at 1. rewrite slice_from_app. cbn [bind].
+  rewrite be_be_enc by (change (256 ^ Z.of_nat 2) with 65536; lia).
+  rewrite (parse_cellpointers_enc starts rest _ Hs). cbn [bind].
+  rewrite (parse_cells_at parse_table_interior _ starts cells Hcells). cbn [bind].
+  rewrite be_be_enc by (change (256 ^ Z.of_nat 4) with (2 ^ 32); lia). reflexivity.
+Qed.
